@@ -11,7 +11,7 @@ cleanup() { git -C /repo worktree remove --force "$d" 2>/dev/null; rm -rf "$d"; 
 trap cleanup EXIT
 if ! git -C "$d" apply "$patch"; then echo "PATCH-DOES-NOT-APPLY"; exit 3; fi
 if [ "${4:-}" = "--suite" ]; then
-  (cd "$d" && go build ./... && go test -count=1 ./... 2>&1 | grep -v '^ok' | head -20)
+  (cd "$d" && go build ./... && go test -count=1 ./... 2>&1 | grep -Ev '^ok|no test files' | head -20)
 fi
 here=$(cd "$(dirname "$0")/.." && pwd)
 mkdir -p "$here/.work/mut"
